@@ -24,6 +24,11 @@ Streams (a *case* is a JSON dict with a "kind"):
            (incl. rejected ones), the list re-assigned (permuted, subset, same list handed back, reversed, repeated planning
            problem ids), scenario_id re-assigned or mutated in place, queries in between
            impl vs model stepSol / SolState.benchmarkId / readSolutionIds; oracle as for sol on the CURRENT state
+  twice    the SAME benchmark id / solution document / scenario id string through a parser entry point several times
+           (_parse_benchmark_id, fromstring, open of two files, from_benchmark_id): two results alive at once must not share
+           mutable parts, and after the first result was edited in place (scenario id attributes, prediction list, returned
+           id lists, planning problem solutions) a later call must still return what the string says
+           impl (last call) vs model parseBenchmarkId / readSolutionIds / parse; oracle: no aliasing, later call == the solution
   bid/vid  arbitrary strings through _parse_benchmark_id / _parse_vehicle_id vs model   (correspondence only)
   tamper   a written solution XML whose benchmark_id attribute was replaced, through fromstring vs model readSolutionIds
   tables   the enums / constants of the working tree (VehicleModel, VehicleType, CostFunction, SupportedCostFunctions,
@@ -46,7 +51,7 @@ RULE = ("scenario ids: full product over small value sets (cooperative x {ZAM, t
         "every ISO code + ZAM once + attribute histories (1..8 assignments / in-place edits / rejected assignments / read-only "
         "queries, valid and invalid final states) + strings for the parser (printed ids with one character deleted / inserted / "
         "replaced, leading zeros, garbage; class / instance / keyword call) + ids through scenario file headers (XML, protobuf); "
-        "solutions: 1..8 (rarely 20) planning problems over all supported (vehicle model, vehicle type, cost function) triples "
+        "repeated calls of one parser entry point on one string with in-place edits of the earlier result in between; solutions: 1..8 (rarely 20) planning problems over all supported (vehicle model, vehicle type, cost function) triples "
         "with input and state trajectories, unsorted / large / zero planning problem ids, Solution options, four reader entry "
         "points, queries first; solution histories (setters, list / scenario id re-assigned or mutated, repeated ids); "
         "distinct = distinct canonical JSON of the case; non-trivial = every case (each one runs constructor, print and parse)")
@@ -88,7 +93,10 @@ REQUIRED_BUCKETS = ["sid/map-only", "sid/config-only", "sid/behaviour-default-pr
                     "sol/pid-large", "sol/queries-first", "sol/same-cost-everywhere", "solhist/setter", "solhist/setter-rejected",
                     "solhist/list-reassigned", "solhist/same-list-back", "solhist/repeated-pid", "solhist/sid-reassigned",
                     "solhist/sid-mutated", "solhist/query-between", "solhist/trajectory-set", "solhist/ctor-rejected",
-                    "solhist/oracle"]
+                    "solhist/oracle",
+                    # round-5 follow-up: histories across several parser / reader calls on one string
+                    "twice/static", "twice/fromstring", "twice/open", "twice/sid", "twice/edit-sid", "twice/edit-id-lists",
+                    "twice/edit-pps", "twice/edit-prediction-list", "twice/no-edit"]
 
 VERSIONS = ["2020a", "2018b"]
 _ID_GRAMMAR = re.compile(r"(C-)?[A-Z]{3}_[A-Za-z0-9]+-[1-9][0-9]*(_[1-9][0-9]*(_[STPI](-[1-9][0-9]*)+)?)?", re.ASCII)
@@ -139,7 +147,8 @@ DIMENSIONS = {
             "__hash__": "oracle (parsed vs constructed, fresh id of the same values); hist query `hash`",
             "benchmark_id_pattern": "class constant; compared with the model matcher on the parse stream",
             "from_benchmark_id": "parse stream: via class, via an instance of another id, version by keyword; on ids printed by "
-                                 "constructed / mutated / copied ids, by Solution.benchmark_id and by file headers",
+                                 "constructed / mutated / copied ids, by Solution.benchmark_id and by file headers; the same string "
+                                 "several times with the earlier result edited in between (twice)",
             "map_name": "property + cleaning setter: hist", "country_id": "property + validating setter: hist",
             "country_name": "read-only: hist query", "prediction_type": "deprecated read-only alias: hist query",
         },
@@ -191,12 +200,14 @@ DIMENSIONS = {
         "ctor": {},
         "attrs": {},
         "members": {
-            "open": "entry point: sol `entry` = open / open-default-name", "fromstring": "entry point: sol `entry` = fromstring-*; tamper",
+            "open": "entry point: sol `entry` = open / open-default-name; two files with one benchmark id (twice)",
+            "fromstring": "entry point: sol `entry` = fromstring-*; tamper; one document read repeatedly (twice)",
             "_parse_solution": "behind both entry points", "_parse_header": "behind both entry points (date / time / processor given or not)",
             "_parse_planning_problem_solution": "behind both entry points; tamper (unknown cost / vehicle ids)",
             "_parse_trajectory": "C14's subject (exceptions from it exclude the XML path only)",
             "_parse_sub_element": "C14's subject", "_parse_state": "C14's subject",
-            "_parse_benchmark_id": "static path of sol / solhist; bid stream (malformed)", "_parse_vehicle_id": "static path; vid stream",
+            "_parse_benchmark_id": "static path of sol / solhist; bid stream (malformed); called repeatedly on one string with the "
+                                   "earlier result edited in between (twice)", "_parse_vehicle_id": "static path; vid stream",
         },
     },
     "commonroad.common.solution.CommonRoadSolutionWriter": {
@@ -1068,6 +1079,9 @@ def run_batch(ctx, cases):
     for case in by.get("file", []):
         run_file_case(ctx, case, cs)
 
+    for case in by.get("twice", []):
+        run_twice_case(ctx, case, cs)
+
     for chunk in _chunks(by.get("sol", []), 100):
         model = _ask(ctx, "sol", {"cs": cs, "sols": [
             {"raw": c["raw"], "vs": [[p[0], p[1]] for p in c["pps"]], "costs": [p[2] for p in c["pps"]]} for c in chunk]}) \
@@ -1172,6 +1186,172 @@ def run_batch(ctx, cases):
         mo = _ask(ctx, "read_ids", {"cs": cs, "items": [[case["bid"], len(case["pps"])]]})
         if mo is not None:
             ctx.compare(case, impl, mo[0], "CommonRoadSolutionReader.fromstring (benchmark_id replaced) vs CR.BenchId.readSolutionIds")
+
+
+_TWICE_SITE = {"static": "_parse_benchmark_id", "fromstring": "fromstring", "open": "open", "sid": "from_benchmark_id"}
+
+
+def _twice_call(entry, arg):
+    """one call of the entry point; returns the live result object(s)"""
+    from commonroad.common.solution import CommonRoadSolutionReader as R
+    from commonroad.scenario.scenario import ScenarioID
+    if entry == "static":
+        return R._parse_benchmark_id(arg)                  # (vehicle ids, cost ids, ScenarioID)
+    if entry == "fromstring":
+        return R.fromstring(arg)
+    if entry == "open":
+        return R.open(arg)
+    return ScenarioID.from_benchmark_id(arg[0], arg[1])
+
+
+def _twice_sid(entry, res):
+    return res[2] if entry == "static" else res if entry == "sid" else res.scenario_id
+
+
+def _twice_snapshot(entry, res):
+    """what a result says, as plain data"""
+    if entry == "static":
+        return {"vehicle_ids": list(res[0]), "cost_ids": list(res[1]), "id": sid_fields(res[2])}
+    if entry == "sid":
+        return {"id": sid_fields(res), "str": str(res)}
+    return dict(solution_fields(res), bid=res.benchmark_id)
+
+
+def _twice_mutable_parts(entry, res):
+    """the mutable objects a result consists of (name -> object): none of them may be shared between two results"""
+    sid = _twice_sid(entry, res)
+    parts = {"scenario id": sid}
+    if isinstance(sid.prediction_id, list):
+        parts["prediction id list"] = sid.prediction_id
+    if entry == "static":
+        parts["vehicle id list"], parts["cost id list"] = res[0], res[1]
+    elif entry != "sid":
+        parts["solution"] = res
+        for i, q in enumerate(res.planning_problem_solutions):
+            parts[f"planning problem solution {i}"] = q
+    return parts
+
+
+def _twice_edit(entry, res, ed):
+    """one in-place edit of a result the caller owns (what a setter refuses is simply not done)"""
+    from commonroad.common.solution import CostFunction, VehicleModel, VehicleType
+    sid = _twice_sid(entry, res)
+    try:
+        if ed[0] == "sid":
+            setattr(sid, ATTR[ed[1]], _conv(ed[1], ed[2]))
+        elif ed[0] == "pred_append":
+            if isinstance(sid.prediction_id, list):
+                sid.prediction_id.append(ed[1])
+            else:
+                sid.prediction_id = [sid.prediction_id or 1, ed[1]]
+        elif ed[0] == "ids" and entry == "static":
+            lst = res[0] if ed[1] == "vehicle" else res[1]
+            if ed[2] == "append":
+                lst.append(ed[3])
+            elif ed[2] == "clear":
+                lst.clear()
+            elif lst:
+                lst[0] = ed[3]
+        elif ed[0] == "pps" and entry in ("fromstring", "open"):
+            qs = res.planning_problem_solutions
+            q = qs[ed[1] % len(qs)]
+            if ed[2] == "vtype":
+                q.vehicle_type = VehicleType(ed[3])
+            elif ed[2] == "cost":
+                q.cost_function = CostFunction[ed[3]]
+            elif ed[2] == "model":
+                q.vehicle_model = VehicleModel[ed[3]]
+            else:
+                res.planning_problem_solutions = qs[:-1]
+    except Exception:  # noqa  (a refused assignment)
+        pass
+
+
+def run_twice_case(ctx, case, cs):
+    """one string through one entry point three times: two results alive at once, the first edited, then a later call"""
+    import os
+    from commonroad.common.solution import CommonRoadSolutionWriter
+    ctx.case(case)
+    entry = case["entry"]
+    site = _TWICE_SITE[entry]
+    ctx.tag("twice/" + entry)
+    eds = case["edits"]
+    if not eds:
+        ctx.tag("twice/no-edit")
+    for ed in eds:
+        ctx.tag({"sid": "twice/edit-sid", "pred_append": "twice/edit-prediction-list", "ids": "twice/edit-id-lists",
+                 "pps": "twice/edit-pps"}[ed[0]])
+    try:
+        sid, sol = mk_solution(case["raw"], case["pps"])
+        bid = sol.benchmark_id
+        want_sol = {"vehicles": [[p[0], p[1]] for p in case["pps"]], "costs": [p[2] for p in case["pps"]], "id": sid_fields(sid)}
+        if entry == "static":
+            args = [bid, bid, bid]
+            want = {"vehicle_ids": [f"{p[0]}{p[1]}" for p in case["pps"]], "cost_ids": [p[2] for p in case["pps"]],
+                    "id": sid_fields(sid)}
+        elif entry == "sid":
+            args = [(str(sid), sid.scenario_version)] * 3
+            want = {"id": sid_fields(sid), "str": str(sid)}
+        else:
+            xml = CommonRoadSolutionWriter(sol).dump()
+            want = dict(want_sol, bid=bid)
+            if entry == "fromstring":
+                args = [xml, xml, xml]
+            else:
+                paths = [os.path.join(ctx.tmpdir(), f"c13_twice_{k}.xml") for k in "ab"]
+                for q in paths:                          # two files with the same benchmark id
+                    with open(q, "w") as f:
+                        f.write(xml)
+                args = [paths[0], paths[1], paths[0]]
+    except Exception as e:  # noqa
+        if _outside_id_code(e):
+            ctx.excluded += 1
+            return
+        ctx.fail(f"C13/Solution/raises-{type(e).__name__}", f"valid solution cannot be constructed / printed / written: {e}", case)
+        return
+    results = []
+    for k, arg in enumerate(args):
+        try:
+            results.append(_twice_call(entry, arg))
+        except Exception as e:  # noqa
+            if _outside_id_code(e):
+                ctx.excluded += 1
+                return
+            ctx.fail(f"C13/{site}/raises-{type(e).__name__}/call-{k + 1}",
+                     f"call {k + 1} of {site} on the same input ({bid!r}) raises: {e}", case)
+            return
+        if k == 1:
+            # two results alive at once
+            a, b = _twice_mutable_parts(entry, results[0]), _twice_mutable_parts(entry, results[1])
+            shared = [n for n in a if n in b and a[n] is b[n]]
+            if shared:
+                ctx.fail(f"C13/{site}/results-share-objects/" + shared[0].replace(" ", "-").rstrip("-0123456789"),
+                         f"two calls of {site} on {bid!r} return the same mutable {', '.join(shared)}: editing one result edits the "
+                         f"other", case)
+            before = _twice_snapshot(entry, results[1])
+            for ed in eds:
+                _twice_edit(entry, results[0], ed)
+            after = _twice_snapshot(entry, results[1])
+            if after != before:
+                diff = [f for f in before if before[f] != after[f]]
+                ctx.fail(f"C13/{site}/other-result-changed/" + "+".join(diff[:2]),
+                         f"{site} on {bid!r}, twice; editing the first result ({eds}) changed the second from {before} to {after}", case)
+    last = _twice_snapshot(entry, results[2])
+    if entry == "static":
+        mo = _ask(ctx, "bid_parse", {"cs": cs, "items": [bid]})
+    elif entry == "sid":
+        mo = _ask(ctx, "parse", {"cs": cs, "items": [[args[0][0], args[0][1]]]})
+    else:
+        mo = _ask(ctx, "read_ids", {"cs": cs, "items": [[bid, len(case["pps"])]]})
+    if mo is not None:
+        impl = {k: v for k, v in last.items() if k != "bid"}
+        ctx.compare(case, {"ok": impl}, mo[0], f"{site}: a later call on the same input, after an earlier result was edited  vs  the "
+                                              f"model's (pure) parser")
+    if last != want:
+        diff = [f for f in want if last[f] != want[f]]
+        ctx.fail(f"C13/{site}/later-call-differs/" + "+".join(diff[:2]),
+                 f"{site} on {bid!r}: after an earlier result of the same call was edited in place ({eds}) a new call returns "
+                 f"{last}, the input says {want}", case)
 
 
 def run_file_case(ctx, case, cs):
@@ -1726,6 +1906,32 @@ def gen_solhist_case(r, triples):
     return case
 
 
+def gen_twice_case(r, triples):
+    """one string, one entry point, several calls; in-place edits of the first result in between"""
+    base = gen_sol_case(r, triples, n=r.choice([1, 1, 2, 3]))
+    entry = r.choice(["static", "static", "fromstring", "open", "sid", "sid"])
+    n = len(base["pps"])
+    eds = []
+    for _ in range(r.choice([0, 1, 1, 2, 3])):
+        k = r.random()
+        if k < 0.45 or (entry == "sid" and k < 0.8):
+            f = r.choice(["coop", "country", "map_name", "map_id", "config", "beh", "pred", "pred", "version"])
+            v = {"coop": r.random() < 0.5, "country": r.choice(["DEU", "USA", "ZAM", None]), "map_name": "Edited" + str(r.randint(0, 9)),
+                 "map_id": rnd_num(r), "config": rnd_num(r), "beh": r.choice(["S", "T", "P", "I", None]),
+                 "pred": r.choice([7, rnd_num(r), [7, 8], None]), "version": r.choice(VERSIONS)}[f]
+            eds.append(["sid", f, v])
+        elif k < 0.6 or entry == "sid":
+            eds.append(["pred_append", rnd_num(r)])
+        elif entry == "static":
+            eds.append(["ids", r.choice(["vehicle", "cost"]), r.choice(["append", "clear", "replace"]), r.choice(["PM1", "KST4", "JB1", ""])])
+        else:
+            what = r.choice(["vtype", "cost", "model", "drop"])
+            v = {"vtype": r.randint(1, 4), "cost": r.choice(["JB1", "SA1", "WX1", "TR1"]), "model": r.choice(["PM", "ST", "KS", "MB"]),
+                 "drop": None}[what]
+            eds.append(["pps", r.randrange(n), what, v])
+    return {"kind": "twice", "raw": base["raw"], "pps": base["pps"], "entry": entry, "edits": eds}
+
+
 def gen_file_case(r):
     raw = gen_valid_raw(r)
     if r.random() < 0.5:
@@ -1824,6 +2030,7 @@ def run(ctx, verdict=True):
     cases += [gen_sol_case(r, triples) for _ in range(ctx.n(800))]
     cases += [gen_sol_case(r, triples, n=20) for _ in range(ctx.n(2))]
     cases += [gen_solhist_case(r, triples) for _ in range(ctx.n(1200))]
+    cases += [gen_twice_case(r, triples) for _ in range(ctx.n(600))]
     cases += [gen_bid_case(r, triples) for _ in range(ctx.n(600))]
     cases += [{"kind": "vid", "s": s} for s in VIDS]
     cases += [gen_tamper_case(r, triples) for _ in range(ctx.n(150))]
@@ -1886,7 +2093,7 @@ def _still_fails(case, key):
 def shrink(case, key):
     """greedy: simpler field values / fewer arguments / fewer operations / fewer planning problems while the same finding key
     is still produced"""
-    if case.get("kind") not in ("sid", "sidkw", "hist", "sol", "solhist", "file") or not _still_fails(case, key):
+    if case.get("kind") not in ("sid", "sidkw", "hist", "sol", "solhist", "file", "twice") or not _still_fails(case, key):
         return case
     cur = copy.deepcopy(case)
 
@@ -1906,7 +2113,11 @@ def shrink(case, key):
         for _ in range(3):
             for i in reversed(range(len(cur["ops"]))):
                 attempt(lambda c, i=i: c["ops"].pop(i))
-    if "pps" in cur and cur["kind"] == "sol":
+    if "edits" in cur:
+        for _ in range(2):
+            for i in reversed(range(len(cur["edits"]))):
+                attempt(lambda c, i=i: c["edits"].pop(i))
+    if "pps" in cur and cur["kind"] in ("sol", "twice"):
         for _ in range(4):
             for i in range(len(cur["pps"])):
                 attempt(lambda c, i=i: c["pps"].pop(i))
